@@ -61,7 +61,7 @@ FT_TRUST = BASE_TRUST + ["SHA-256 is re-implemented in Lean for execution only (
                          "encoding/json: access lists are compared as decoded map[string]string (decoded by the harness with the chain's own json.Unmarshal)"]
 
 def genesis_runs(tier, seed):
-    profs = ["storage", "plans", "forms", "rns", "notif", "filetree"]
+    profs = ["storage", "plans", "forms", "rns", "notif", "filetree", "msgs"]  # msgs: the oracle feeds, restarted once per history
     if tier == "quick":
         return [{"profile": p, "args": [p, "-seed", str(seed * 10 + k), "-hist", "3", "-steps", "300", "-genesis"]} for k, p in enumerate(profs)]
     return [{"profile": p, "args": [p, "-seed", str(seed * 100 + k * 7 + j), "-hist", "4", "-steps", "400", "-genesis"]} for k, p in enumerate(profs) for j in range(3)]
@@ -121,7 +121,7 @@ PROPS = {
         "assumptions": ["ownership is the chain's own predicate H('o'+address+H(signer)) = entry.owner (hash collisions out of scope)", "signers are well-formed bech32 addresses"],
     },
     "C20": {
-        "runs": ft_runs, "replay_runs": replay_runs, "monitor": mon_filetree.c20,
+        "facts": facts.gen_pure_fns, "runs": ft_runs, "replay_runs": replay_runs, "monitor": mon_filetree.c20,
         "diff_relevant": lambda d: d["mod"] == "path" or (d["mod"] == "filetree" and "response" in d["fields"]),
         "trusted_base": FT_TRUST,
         "assumptions": ["domain: '/'-free segments, last segment non-empty (or the single empty segment); parent strings not ending in '/'", "distinctness is stated in collision-extraction form (no injectivity of SHA-256 is assumed)"],
@@ -228,10 +228,12 @@ def st(fields=None, ops=None, opfields=None, queries=None, wasm=False):
 
 STORAGE_PROPS = {
     "C01": dict(main="proofs", extra=("forms",), monitor=mon_storage.C01, stateful=True,
-                rel=st(fields=["verify", "success"], ops=["postProof"], opfields={"block": ["files", "files2", "proofs", "bank"], "attest": ["proofs"], "postFile": ["files", "proofs"]},
+                rel=st(fields=["verify", "success"], ops=["postProof"], opfields={"block": ["files", "files2", "proofs", "bank"], "attest": ["proofs"], "postFile": ["files", "proofs"],
+                                                                                  # a restart that rewrites proof records extends (or ends) a prover's credit without a proof
+                                                                                  "restart": ["proofs", "files", "genesis"]},
                        queries=["proof", "proofsByAddress"])),
     "C02": dict(main="proofs", monitor=mon_storage.C02, stateful=True, facts=facts.gen_pure_fns,
-                rel=st(fields=["verify", "challenge"], ops=["postProof"], opfields={"block": ["files", "files2", "proofs", "providers"]})),
+                rel=st(fields=["verify", "challenge"], ops=["postProof"], opfields={"block": ["files", "files2", "proofs", "providers"], "restart": ["proofs", "files", "providers"]})),
     "C03": dict(main="proofs", monitor=mon_storage.C03, stateful=True, facts=facts.gen_pure_fns,
                 rel=st(opfields={"block": ["files", "files2", "proofs", "providers", "bank", "panic"]})),
     "C04": dict(main="payments", extra=("rns", "msgs"), monitor=mon_storage.c04, facts=facts.gen_pure_fns,
@@ -240,13 +242,13 @@ STORAGE_PROPS = {
                 # wasm: C05_history_never_panics_unconditional assumes that no message is signed by an escrow account; for
                 # contract-originated posts that is what the binding's creator check provides
                 rel=st(fields=["panic"], ops=["block"], opfields={"postFile": ["outcome", "files"]}, wasm=True)),
-    "C07": dict(main="plans", monitor=mon_storage.c07,
-                rel=st(fields=["payinfo"], ops=["postFile", "deleteFile"], opfields={"buyStorage": ["outcome"], "block": ["files", "files2"]},
+    "C07": dict(main="plans", extra=("msgs",), monitor=mon_storage.c07,
+                rel=st(fields=["payinfo"], ops=["postFile", "deleteFile"], opfields={"buyStorage": ["outcome"], "block": ["files", "files2"]}, wasm=True,
                        queries=["payInfo", "allPayInfo", "payData", "clientFreeSpace", "fileUploadCheck", "storageStats", "networkSize"])),
     "C12": dict(main="payments", monitor=mon_storage.C12, stateful=True, facts=facts.gen_pure_fns,
                 rel=st(fields=["gauges"], opfields={"block": ["bank", "panic"], "postFile": ["bank"], "buyStorage": ["bank"]}, queries=["gauges"])),
     "C14": dict(main="forms", monitor=mon_storage.c14,
-                rel=st(fields=["attests", "reports"], ops=["attest", "report", "requestAttest", "requestReport"],
+                rel=st(fields=["attests", "reports"], ops=["attest", "report", "requestAttest", "requestReport", "setParams"],
                        queries=["attestation", "allAttestations", "report", "allReports", "activeProviders"])),
     "C15": dict(main="collateral", monitor=mon_storage.c15,
                 rel=st(fields=["collateral", "params"], ops=["initProvider", "shutdownProvider", "setParams"], queries=["provider", "allProviders"])),
